@@ -102,6 +102,17 @@ func scalar(r *rand.Rand, fd protoreflect.FieldDescriptor, o PopOpts) protorefle
 	case protoreflect.EnumKind:
 		vals := fd.Enum().Values()
 		if !o.ValidEnum && r.Intn(4) == 0 {
+			// numbers the schema does not declare: just past the last value, far away, negative, extreme
+			switch r.Intn(5) {
+			case 0:
+				return protoreflect.ValueOfEnum(protoreflect.EnumNumber(vals.Len() + r.Intn(3)))
+			case 1:
+				return protoreflect.ValueOfEnum(protoreflect.EnumNumber(-1 - r.Intn(3)))
+			case 2:
+				return protoreflect.ValueOfEnum(protoreflect.EnumNumber(-2147483648))
+			case 3:
+				return protoreflect.ValueOfEnum(protoreflect.EnumNumber(2147483647))
+			}
 			return protoreflect.ValueOfEnum(protoreflect.EnumNumber(1000 + r.Intn(100)))
 		}
 		// non-zero so that the field is observably set
